@@ -33,7 +33,7 @@ SHAPES = [
 def plan(tier, seed):
     n = 1200 if tier == "quick" else 20000
     return {"shards": 16, "timeout": 900 if tier == "quick" else 3000, "n": n,
-            "floors": {"pairs_compared": n, "distinct": 60, "mixed_content_pairs": 200}}
+            "floors": {"suite_conversions_judged": 500, "pairs_compared": n, "distinct": 60, "mixed_content_pairs": 200}}
 
 
 def shape_form(rng, i):
